@@ -528,6 +528,14 @@ __result = __json.dumps({call_code})
     except ValueError:
         raise ValueError(f"Invalid JSON result in constexpr function: {result_json}")
 
+    if isinstance(result, float) and (
+        result != result or result in (float("inf"), float("-inf"))
+    ):
+        raise CompilerError(
+            f"The constexpr call {call_node.as_string()} evaluates to {result}, which cannot be written as a number",
+            call_node,
+        )
+
     _eval_constexpr_cache[code] = result
     return result
 
